@@ -159,6 +159,22 @@ pub fn families() -> Vec<Family> {
             ],
         },
         Family {
+            // layout directives that read labels which themselves settle late
+            name: "label-dependent-layout-directives",
+            rules: vec![RuleSrc::new("jb {a}", "{ assert(a < 6), 0xa @ a`4 }"), RuleSrc::new("jb {a}", "0xb0 @ a`8"), RuleSrc::new("nop", "0x00"), RuleSrc::new("ld {x: u8}", "0x7e @ x")],
+            items: vec![
+                Item::Instr("jb B".into()),
+                Item::Instr("jb A".into()),
+                Item::Res("B - A".into()),
+                Item::Align("(B - A) * 8".into()),
+                Item::Addr("A + 3".into()),
+                Item::Instr("ld B".into()),
+                Item::Label("A".into()),
+                Item::Label("B".into()),
+                Item::Instr("nop".into()),
+            ],
+        },
+        Family {
             // the short form's body is a constant: only the assert looks at the operand
             name: "assert-constant-body",
             rules: with(vec![RuleSrc::new("jmp {a}", "{ assert(a < 4), 0xaa }"), RuleSrc::new("jmp {a}", "0xbbbb")]),
@@ -281,7 +297,19 @@ pub fn claimed_sizes(prog: &Prog, obs: &Obs) -> Option<Vec<usize>> {
 /// the certificate: None = holds (or no verdict), Some(reason) = the claimed state is not self-consistent
 pub fn certificate(prog: &Prog, obs: &Obs, l: &mut Local) -> Option<String> {
     let Some(sizes) = claimed_sizes(prog, obs) else { return Some("spans do not correspond to the program's items".into()) };
-    match assemble_with(prog, Some(&sizes)) {
+    let mut r = assemble_with(prog, Some(&sizes));
+    if matches!(&r, RefOut::Unspec(w) if w == "layout directive depends on an address") {
+        // layout directives that read labels: certify at the label values the result itself claims
+        let mut labels = std::collections::HashMap::new();
+        for (n, v) in &obs.symbols {
+            if let Some(z) = v.strip_prefix("0x").and_then(|h| crate::refx::Z::parse_bytes(h.as_bytes(), 16)) {
+                labels.insert(n.clone(), z);
+            }
+        }
+        r = assemble_certified(prog, Some(&sizes), &labels);
+        l.count("certificates at claimed label values (label-dependent layout directives)", 1);
+    }
+    match r {
         RefOut::Unspec(_) => {
             l.unspecified += 1;
             None
